@@ -391,10 +391,18 @@ func (pm *Portmapper) handleCall(data []byte, remoteAddr net.Addr) ([]byte, erro
 		switch procedure {
 		case 0: // RPCBPROC_NULL
 			result = nil
-		case 1: // RPCBPROC_SET - not implemented
-			result = pm.handleRpcbSet(r)
-		case 2: // RPCBPROC_UNSET - not implemented
-			result = pm.handleRpcbUnset(r)
+		case 1: // RPCBPROC_SET - loopback clients only, as for portmap v2
+			if !isLoopbackRemote(remoteAddr) {
+				result = pm.encodeBool(false)
+			} else {
+				result = pm.handleRpcbSet(r)
+			}
+		case 2: // RPCBPROC_UNSET - loopback clients only, as for portmap v2
+			if !isLoopbackRemote(remoteAddr) {
+				result = pm.encodeBool(false)
+			} else {
+				result = pm.handleRpcbUnset(r)
+			}
 		case 3: // RPCBPROC_GETADDR
 			result = pm.handleGetAddr(r)
 		case 4: // RPCBPROC_DUMP
@@ -405,6 +413,21 @@ func (pm *Portmapper) handleCall(data []byte, remoteAddr net.Addr) ([]byte, erro
 	}
 
 	return pm.makeReply(xid, MSG_ACCEPTED, result), nil
+}
+
+// isLoopbackRemote reports whether a caller may modify the registry: a nil
+// address (in-process use) or a loopback address. An address that cannot be
+// parsed (for example a zone-scoped link-local one) is not local.
+func isLoopbackRemote(remoteAddr net.Addr) bool {
+	if remoteAddr == nil {
+		return true
+	}
+	host, _, err := net.SplitHostPort(remoteAddr.String())
+	if err != nil {
+		return false
+	}
+	ip := net.ParseIP(host)
+	return ip != nil && ip.IsLoopback()
 }
 
 func (pm *Portmapper) skipAuth(r io.Reader) error {
@@ -509,12 +532,8 @@ func (pm *Portmapper) handleDump() []byte {
 
 func (pm *Portmapper) handleSet(r io.Reader, remoteAddr net.Addr) []byte {
 	// Only allow SET from localhost
-	if remoteAddr != nil {
-		host, _, _ := net.SplitHostPort(remoteAddr.String())
-		ip := net.ParseIP(host)
-		if ip != nil && !ip.IsLoopback() {
-			return pm.encodeBool(false)
-		}
+	if !isLoopbackRemote(remoteAddr) {
+		return pm.encodeBool(false)
 	}
 
 	var prog, vers, prot, port uint32
@@ -538,12 +557,8 @@ func (pm *Portmapper) handleSet(r io.Reader, remoteAddr net.Addr) []byte {
 
 func (pm *Portmapper) handleUnset(r io.Reader, remoteAddr net.Addr) []byte {
 	// Only allow UNSET from localhost
-	if remoteAddr != nil {
-		host, _, _ := net.SplitHostPort(remoteAddr.String())
-		ip := net.ParseIP(host)
-		if ip != nil && !ip.IsLoopback() {
-			return pm.encodeBool(false)
-		}
+	if !isLoopbackRemote(remoteAddr) {
+		return pm.encodeBool(false)
 	}
 
 	var prog, vers, prot, port uint32
